@@ -78,5 +78,22 @@ v, _ = pipecheck.observe_with_tlc("selftest_obs", [good, bad, bad2])
 expect("Observed: genuine observation accepted", all(v[1][c] for c in ("topo", "skelops", "modes")))
 expect("Observed: swapped operators rejected (topo)", not v[2]["topo"])
 expect("Observed: corrupted dtype rejected (modes)", not v[3]["modes"])
+# step-level trace validation: a genuine hook trace is accepted, one corrupted field or one removed event rejects it
+import os as _os
+tp = _os.path.join(tlc.WORK, "selftest_trace.ndjson")
+if _os.path.exists(tp):
+  _os.unlink(tp)
+_os.environ["AI_EDGE_QUANTIZER_VERIF_TRACE"] = tp
+scn2 = {"subs": [{"ops": [{"kind": "EW1", "ins": [0], "outs": [1]}, {"kind": "EW2", "ins": [1, 0], "outs": [2]}], "trole": ["act", "act", "act"], "gins": [0], "gouts": [1, 2]}],
+        "mode": [[{"m": "SRQ", "a": "a8a", "w": "w8c"}, {"m": "NOQ", "a": "-", "w": "-"}]], "inmode": {"m": "NOQ", "a": "-", "w": "-"}, "outmode": {"m": "NOQ", "a": "-", "w": "-"}}
+impl2 = pipeline.run_impl(scn2)
+_os.environ.pop("AI_EDGE_QUANTIZER_VERIF_TRACE")
+ev = [json.loads(x) for x in open(tp)]
+def res_of(events):
+  return {"events": events, "scn": scn2, "outcome": impl2["outcome"], "key": "selftest"}
+corrupt = json.loads(json.dumps(ev))
+corrupt[-1]["omap"][0] += 1                      # one bookkeeping field off by one
+nacc, rej, _ = pipecheck.validate_traces("selftest_traces", [res_of(ev), res_of(corrupt), res_of(ev[:-1])])
+expect("PipelineTrace: genuine hook trace accepted, corrupted omap rejected, missing event rejected", nacc == 1 and sorted(i for i, _ in rej) == [1, 2], "%d accepted, rejected %s" % (nacc, [i for i, _ in rej]))
 print("SELFTEST", "PASSED" if ok else "FAILED")
 sys.exit(0 if ok else 1)
